@@ -272,6 +272,32 @@ def oracle_c06(res):
             new = list(c[2])
             if subs[len(subs) - len(new):] != new:
                 return ("retry_first", f"new points {new} are not the last submissions {subs}")
+    # a point that failed no more than `retries` times and is not in flight is re-submitted whenever the runner fills its slots
+    inflight, fails_so_far, told_so_far = {}, {}, set()
+    for i, c in enumerate(flat):
+        if c[0] == "submit":
+            inflight[c[1]] = c[2]
+        elif c[0] in ("done", "remaining"):
+            for idx, lab, o in c[1]:
+                inflight.pop(idx, None)
+                if o == "fail":
+                    fails_so_far[lab] = fails_so_far.get(lab, 0) + 1
+        elif c[0] == "cancel":
+            inflight.pop(c[1], None)
+        elif c[0] == "tell":
+            told_so_far.add(c[1])
+        elif c[0] == "ask":
+            j = i + 1
+            subs = []
+            while j < len(flat) and flat[j][0] == "submit":
+                subs.append(flat[j][2])
+                j += 1
+            waiting = [lab for lab, n in fails_so_far.items()
+                       if 1 <= n <= cfg["retries"] and lab not in told_so_far and lab not in inflight.values()]
+            missed = [lab for lab in waiting if lab not in subs]
+            if missed and len(c[2]) > 0:
+                return ("retry_resubmitted", f"the learner was asked for new points {list(c[2])} while point(s) {missed} that failed "
+                                             f"{[fails_so_far[m] for m in missed]} time(s) (retries={cfg['retries']}) were neither in flight nor re-submitted")
     if r is not None:
         failed_pts = {L(p) for p, _ in r.tracebacks} - {L(p) for p, _ in r.to_retry}
         # failures that the runner actually processed
